@@ -101,30 +101,72 @@ pub const CONTENT_TYPE: &str = "Content-Type: application/vscode-jsonrpc; charse
 /// In every style the versions of one open session increase strictly.
 pub fn frames_of(script: &[Step]) -> Vec<Vec<u8>> {
     let style = script.len() % 3;
+    // every other script also sends the deprecated but still common `rangeLength` member (the
+    // length of the replaced range in UTF-16 units, as VS Code does)
+    let with_range_length = (script.len() / 3) % 2 == 1;
     let mut versions: BTreeMap<&str, i64> = BTreeMap::new();
+    let mut replica = Replica::default();
     script
         .iter()
-        .map(|st| match &st.op {
-            ClientOp::Open { uri, .. } => {
-                let v = versions.entry(uri.as_str()).or_insert(0);
-                *v = if style == 1 { *v + 1 } else { 1 };
-                frame_with_version(st, Some(*v))
-            }
-            ClientOp::Change { uri, .. } => {
-                let v = versions.entry(uri.as_str()).or_insert(0);
-                *v += if style == 2 { 2 } else { 1 };
-                frame_with_version(st, Some(*v))
-            }
-            _ => frame_with_version(st, None),
+        .map(|st| {
+            let frame = match &st.op {
+                ClientOp::Open { uri, .. } => {
+                    let v = versions.entry(uri.as_str()).or_insert(0);
+                    *v = if style == 1 { *v + 1 } else { 1 };
+                    frame_with(st, Some(*v), None)
+                }
+                ClientOp::Change { uri, edits } => {
+                    let v = versions.entry(uri.as_str()).or_insert(0);
+                    *v += if style == 2 { 2 } else { 1 };
+                    let lengths = if with_range_length {
+                        // relative to the text as it is before each change of the batch
+                        let mut t = replica.docs.get(uri).cloned();
+                        Some(
+                            edits
+                                .iter()
+                                .map(|e| {
+                                    let n = match (&t, e.range) {
+                                        (Some(text), Some([sl, sc, el, ec])) => {
+                                            let (a, b) = (offset_at(text, sl, sc), offset_at(text, el, ec));
+                                            let (a, b) = (a.min(b), a.max(b));
+                                            Some(text[a..b].encode_utf16().count() as u64)
+                                        }
+                                        _ => None,
+                                    };
+                                    if let Some(text) = t.as_mut() {
+                                        apply_edit(text, e);
+                                    }
+                                    n
+                                })
+                                .collect::<Vec<_>>(),
+                        )
+                    } else {
+                        None
+                    };
+                    frame_with(st, Some(*v), lengths)
+                }
+                _ => frame_with(st, None, None),
+            };
+            replica.apply(&st.op);
+            frame
         })
         .collect()
 }
 
-fn frame_with_version(st: &Step, version: Option<i64>) -> Vec<u8> {
+fn frame_with(st: &Step, version: Option<i64>, range_lengths: Option<Vec<Option<u64>>>) -> Vec<u8> {
     let mut body = body_of(&st.op);
     if let Some(v) = version {
         if let Some(td) = body.get_mut("params").and_then(|p| p.get_mut("textDocument")) {
             td["version"] = json!(v);
+        }
+    }
+    if let Some(ls) = range_lengths {
+        if let Some(changes) = body.get_mut("params").and_then(|p| p.get_mut("contentChanges")).and_then(|c| c.as_array_mut()) {
+            for (c, l) in changes.iter_mut().zip(ls) {
+                if let (Some(l), true) = (l, c.get("range").is_some()) {
+                    c["rangeLength"] = json!(l);
+                }
+            }
         }
     }
     let body = serde_json::to_string(&body).expect("json");
